@@ -417,23 +417,10 @@ def call_lua_sandbox(
         return "{{#invoke:" + "|".join(invoke_args) + "}}"
 
     # Initialize the Lua sandbox if not already initialized
-    if len(ctx.lua_env_stack) == 0:
-        if ctx.lua is None:
-            # This is the first call to the Lua sandbox.
-            # Create a Lua context and initialize it.
-            initialize_lua(ctx)  # This sets ctx.lua
-        else:
-            # This is a second or later call to the Lua sandbox.
-            # Reset the Lua context back to initial state.
-            ctx.lua_reset_env()  # type: ignore[misc]
-            phase2_ret: "_LuaTable" = ctx.lua.eval(
-                'new_require("_sandbox_phase2")'
-            )
-            # Lua tables start indexing on 1
-            set_functions = phase2_ret[1]
-            ctx.lua_invoke = phase2_ret[2]
-            ctx.lua_reset_env = phase2_ret[3]
-            call_set_functions(ctx, set_functions)
+    if ctx.lua is None:
+        # This is the first call to the Lua sandbox.
+        # Create a Lua context and initialize it.
+        initialize_lua(ctx)  # This sets ctx.lua
 
     lua = ctx.lua
 
@@ -737,6 +724,22 @@ def call_lua_sandbox(
     else:
         pframe = None
     frame = make_frame(pframe, modname, invoke_args[2:])
+
+    if len(ctx.lua_env_stack) == 0:
+        # An outermost call starts from the initial state of the Lua
+        # context.  The reset comes after the frames are made: computing
+        # an argument name ({{#invoke:m|f|{{#invoke:n|g}}=v}}) runs an
+        # invocation of its own, and the modules that one loaded (with
+        # their module-level state) do not belong to this call.
+        ctx.lua_reset_env()  # type: ignore[misc]
+        phase2_ret: "_LuaTable" = ctx.lua.eval(
+            'new_require("_sandbox_phase2")'
+        )
+        # Lua tables start indexing on 1
+        set_functions = phase2_ret[1]
+        ctx.lua_invoke = phase2_ret[2]
+        ctx.lua_reset_env = phase2_ret[3]
+        call_set_functions(ctx, set_functions)
 
     # Call the Lua function in the given module
     stack_len = len(ctx.expand_stack)
